@@ -149,7 +149,8 @@ var pureExternPrefixes = []string{
 
 var freshExternPrefixes = []string{
 	"time.Now", "time.Sleep", "time.Since",
-	"(github.com/cosmos/cosmos-sdk/crypto/keyring.Keyring).",
+	"(github.com/cosmos/cosmos-sdk/crypto/keyring.Keyring).", "(github.com/cosmos/cosmos-sdk/crypto/keyring.Signer).",
+	"(github.com/cosmos/cosmos-sdk/crypto/types.PubKey).",
 	"(*cosmossdk.io/errors.Error).ABCICode", "(cosmossdk.io/errors.Error).ABCICode",
 	"(github.com/cometbft/cometbft/rpc/client.ABCIClient).", "(github.com/cometbft/cometbft/rpc/client.Client).",
 	"context.Background", "context.WithTimeout",
@@ -869,9 +870,11 @@ func (fc *FCtx) evalRecvExpr(recvExpr ast.Expr, st *State) Val {
 func (fc *FCtx) evalDroppedArgs(e *ast.CallExpr, st *State) {
 	for _, a := range e.Args {
 		func() {
+			nf, ni, ng := len(fc.frames), len(fc.inlineStack), len(fc.guards)
 			defer func() {
 				if r := recover(); r != nil {
 					if _, ok := r.(OutOfSubset); ok {
+						fc.frames, fc.inlineStack, fc.guards = fc.frames[:nf], fc.inlineStack[:ni], fc.guards[:ng]
 						return
 					}
 					panic(r)
